@@ -21,16 +21,16 @@ Reading guide (skeleton action → model label / pc):
 namespace Ekit.DelayQ.Skel
 
 def expected_DelayQueue_Dequeue : String :=
-  "defer{func{if(timer != nil){Stop(timer)}}};for(){select{arm[ctx.Done;Recv(ctx.Done())]{ctx.Err;return};default{}};Lock(mutex);Call(q.Peek);switch(err){case(nil){if(delay <= 0){Call(q.Dequeue);Call(dequeueSignal.broadcast);return};Call(enqueueSignal.signalCh);if(timer == nil){NewTimer(time)};else{Reset(timer)};select{arm[ctx.Done;Recv(ctx.Done())]{ctx.Err;return};arm[Recv(timer.C)]{Lock(mutex);Call(q.Peek);if(err != nil || val.Delay() > 0){Unlock(mutex);continue};Call(q.Dequeue);Call(dequeueSignal.broadcast);return};arm[Recv(signal)]{}}};case(queue.ErrEmptyQueue){Call(enqueueSignal.signalCh);select{arm[ctx.Done;Recv(ctx.Done())]{ctx.Err;return};arm[Recv(signal)]{}}};default{Unlock(mutex);return}}}"
+  "defer{func{if($1 == nil){return};else{Stop($1);return}}};for(){select{arm[ctx.Done;Recv(ctx.Done())]{ctx.Err;return};default{}};Lock(mutex);Call(q.Peek);if($2 == nil){if($3 <= 0){Call(q.Dequeue);Call(dequeueSignal.broadcast);return};else{Call(enqueueSignal.signalCh);if($1 == nil){NewTimer(time)};else{Reset($1)};select{arm[ctx.Done;Recv(ctx.Done())]{ctx.Err;return};arm[Recv($1.C)]{Lock(mutex);Call(q.Peek);if($2 != nil || $4.Delay() > 0){Unlock(mutex);continue};else{Call(q.Dequeue);Call(dequeueSignal.broadcast);return}};arm[Recv($5)]{}};continue}};else{if($2 == queue.ErrEmptyQueue){Call(enqueueSignal.signalCh);select{arm[ctx.Done;Recv(ctx.Done())]{ctx.Err;return};arm[Recv($5)]{}};continue};else{Unlock(mutex);return}}};return"
 
 def expected_DelayQueue_Enqueue : String :=
-  "for(){select{arm[ctx.Done;Recv(ctx.Done())]{ctx.Err;return};default{}};Lock(mutex);Call(q.Enqueue);switch(err){case(nil){Call(enqueueSignal.broadcast);return};case(queue.ErrOutOfCapacity){Call(dequeueSignal.signalCh);select{arm[ctx.Done;Recv(ctx.Done())]{ctx.Err;return};arm[Recv(signal)]{}}};default{Unlock(mutex);return}}}"
+  "for(){select{arm[ctx.Done;Recv(ctx.Done())]{ctx.Err;return};default{}};Lock(mutex);Call(q.Enqueue);if($1 == nil){Call(enqueueSignal.broadcast);return};else{if($1 == queue.ErrOutOfCapacity){Call(dequeueSignal.signalCh);select{arm[ctx.Done;Recv(ctx.Done())]{ctx.Err;return};arm[Recv($2)]{}};continue};else{Unlock(mutex);return}}};return"
 
 def expected_NewDelayQueue : String :=
-  "func{if(srcDelay > dstDelay){return};if(srcDelay == dstDelay){return};return};return"
+  "func{if($1 <= $2){if($1 == $2){return};else{return}};else{return}};return"
 
 def expected_cond_broadcast : String :=
-  "R(signal);W(signal);Unlock(l);Close(old)"
+  "R(signal);W(signal);Unlock(l);Close($1);return"
 
 def expected_cond_signalCh : String :=
   "R(signal);Unlock(l);return"
